@@ -264,7 +264,9 @@ var c10Ladders = []ladder{
 	}},
 	{"nested-builtin-args", depthSizes, func(n int) string { return "fn f() { let x = " + rep("abs(", n) + "1.0" + rep(")", n) + "; }" }},
 	{"nested-constructors", depthSizes, func(n int) string { return "fn f() { let x = " + rep("vec4<f32>(", n) + "1.0" + rep(")", n) + "; }" }},
-	{"nested-select", depthSizes[:5], func(n int) string { return "fn f(c: bool) { let x = " + rep("select(1, ", n) + "2" + rep(", c)", n) + "; }" }},
+	{"nested-select", depthSizes[:5], func(n int) string {
+		return "fn f(c: bool) { let x = " + rep("select(1, ", n) + "2" + rep(", c)", n) + "; }"
+	}},
 	{"index-chain", depthSizes, func(n int) string { return "fn f() { var a = array<i32, 1>(1); let x = a" + rep("[0]", n) + "; }" }},
 	{"member-chain", depthSizes, func(n int) string { return "struct S { a: i32 }\nfn f() { var s: S; let x = s" + rep(".a", n) + "; }" }},
 	{"swizzle-chain", depthSizes, func(n int) string { return "fn f() { let v = vec4<f32>(1.0); let x = v" + rep(".xyzw", n) + "; }" }},
@@ -276,7 +278,9 @@ var c10Ladders = []ladder{
 	{"or-chain-runtime", depthSizes, func(n int) string {
 		return "@group(0) @binding(0) var<storage, read_write> o: u32;\nfn f(a: bool) -> bool { return a" + rep(" || a", n) + "; }\n" + mainHdr + "{ o = u32(f(o == 1u)); }"
 	}},
-	{"mul-paren-chain", depthSizes, func(n int) string { return "fn f(a: f32) -> f32 { return " + rep("(a * ", n) + "a" + rep(")", n) + "; }" }},
+	{"mul-paren-chain", depthSizes, func(n int) string {
+		return "fn f(a: f32) -> f32 { return " + rep("(a * ", n) + "a" + rep(")", n) + "; }"
+	}},
 	{"else-if-chain", depthSizes[:5], func(n int) string {
 		return "fn f(a: i32) -> i32 { if a == 0 { return 0; }" + rep(" else if a == 1 { return 1; }", n) + " return 2; }"
 	}},
@@ -284,7 +288,9 @@ var c10Ladders = []ladder{
 	{"long-int-literal", []int{1, 8, 20, 64, 4096, 60000}, func(n int) string { return "const c = 1" + rep("0", n) + ";" }},
 	{"long-float-literal", []int{1, 8, 40, 400, 4096, 60000}, func(n int) string { return "const c = 1" + rep("0", n) + ".0;" }},
 	{"long-float-fraction", []int{1, 8, 40, 400, 4096, 60000}, func(n int) string { return "const c = 0." + rep("0", n) + "1;" }},
-	{"huge-exponent", []int{1, 38, 39, 308, 309, 4096, 1 << 30}, func(n int) string { return fmt.Sprintf("const c = 1e%d;\nconst d = 1e-%d;\nconst e = 1.0e%df;", n, n, n) }},
+	{"huge-exponent", []int{1, 38, 39, 308, 309, 4096, 1 << 30}, func(n int) string {
+		return fmt.Sprintf("const c = 1e%d;\nconst d = 1e-%d;\nconst e = 1.0e%df;", n, n, n)
+	}},
 	{"long-hex-literal", []int{1, 8, 9, 16, 17, 4096}, func(n int) string { return "const c = 0x" + rep("F", n) + ";" }},
 	{"hex-float-exponent", []int{1, 127, 128, 1023, 1024, 100000, 1 << 30}, func(n int) string { return fmt.Sprintf("const c = 0x1p%d;\nconst d = 0x1p-%d;", n, n) }},
 	{"nested-block-comment", depthSizes, func(n int) string { return rep("/*", n) + rep("*/", n) + "\nconst c = 1;" }},
@@ -396,7 +402,9 @@ var c10Ladders = []ladder{
 	{"align-size-huge", bigN, func(n int) string {
 		return fmt.Sprintf("struct S { @align(%d) a: f32, @size(%d) b: f32 }\n@group(0) @binding(0) var<storage, read_write> s: S;\n%s{ s.a = s.b; }", n, n, mainHdr)
 	}},
-	{"shift-amount-huge", bigN, func(n int) string { return fmt.Sprintf("const c = 1u << %du;\nconst d = 1 << %d;\nfn f(a: u32) -> u32 { return a >> %du; }", n, n, n) }},
+	{"shift-amount-huge", bigN, func(n int) string {
+		return fmt.Sprintf("const c = 1u << %du;\nconst d = 1 << %d;\nfn f(a: u32) -> u32 { return a >> %du; }", n, n, n)
+	}},
 	{"vector-index-huge", bigN, func(n int) string {
 		return fmt.Sprintf("fn f() -> f32 { let v = vec4<f32>(1.0); var a = array<f32, 4>(); return v[%d] + a[%d]; }", n, n)
 	}},
@@ -448,7 +456,7 @@ var c10Cyclic = []wgen.Micro{
 	{Name: "whitespace-only", Src: " \t\r\n"},
 }
 
-func genLadders() c10Gen {
+func genLadders(maxDepth, maxBig int) c10Gen {
 	type ent struct {
 		l *ladder
 		n int
@@ -457,6 +465,13 @@ func genLadders() c10Gen {
 	for i := range c10Ladders {
 		l := &c10Ladders[i]
 		for _, n := range l.sizes {
+			maxN := maxDepth
+			if l.sizes[len(l.sizes)-1] > 1<<20 {
+				maxN = maxBig // object-size ladder
+			}
+			if n > maxN && n != 1<<31-1 && n != 1<<32-1 {
+				continue // quick tier: small rungs only (plus the two integer-limit values)
+			}
 			if s := l.gen(n); len(s) <= 65536 {
 				ents = append(ents, ent{l, n})
 			}
